@@ -532,6 +532,30 @@ pub fn initial_states(out: &str) {
             }
         }
     }
+    // discs that touch (or all but touch): outer discs tangent to the central one (distance =
+    // 1 + radius, as a sum and as a decimal literal one ulp away from it) and to each other
+    for gname in ["p1", "p2gg"].iter() {
+        let mut cases: Vec<(f64, f64, f64)> = vec![];
+        for radius in [0.87f64, 0.902, 0.955, 0.637556, 0.3, 0.45, 1.0, 1.3].iter() {
+            for angle in [60.0f64, 90., 120., 180.].iter() {
+                let lit: f64 = format!("{:.6}", 1. + radius).parse().unwrap_or(1. + radius);
+                cases.push((*radius, *angle, 1. + radius));
+                cases.push((*radius, *angle, lit));
+                cases.push((*radius, *angle, radius / (angle.to_radians() / 2.).sin()));
+            }
+        }
+        for (radius, angle, dist) in cases {
+            let g2 = suites::group(gname);
+            let r = std::panic::catch_unwind(move || {
+                let st = PackedState::from_group(MolecularShape2::from_trimer(radius, angle, dist), &g2).ok()?;
+                Some((serde_json::to_value(&st).ok(), st.score()))
+            })
+            .ok()
+            .flatten();
+            judge(format!("{} hard trimer({}, {}, {}) with touching discs", gname, radius, angle, dist), gname,
+                  r.as_ref().and_then(|x| x.0.clone()), r.map(|x| x.1));
+        }
+    }
     // the cell never leaves the crystal family of its group, for every group offered by name
     drop(judge);
     let mut worst = 0.;
